@@ -320,6 +320,8 @@ Section Machine.
     end.
   (* KF-19's window: a table that is not completely filled is in service *)
   Definition in_fill_window (l : local) : bool := in_compile l && negb (before_swap l).
+  (* C18's proved domain: the points of a CALL at which abandoning it is harmless = outside both windows *)
+  Definition safe_point (l : local) : bool := before_swap l || negb (in_compile l) && negb (in_write_window l).
 End Machine.
 
 (* ---- an executable chain: per method and key an optional rank number; larger runs first, ties are ambiguous ---- *)
@@ -335,3 +337,11 @@ Fixpoint ins_group (l : label) (r : nat) (gs : list (nat * list label)) : list (
 Definition chain_rk (rk : label -> key -> option nat) (regs : list label) (k : key) : list rank :=
   let gs := fold_left (fun gs l => match rk l k with Some r => ins_group l r gs | None => gs end) regs [] in
   map (fun g => match snd g with [h] => ROne h | hs => RAmb hs end) gs.
+
+(* ---- C19: the domain of the concurrency theorem ---- *)
+(* built, and the resolutions of the keys in K have completed: their first-rank entries are in the table in service *)
+Definition warm (K : list key) (s : shared) : bool :=
+  match s_entry s with Generated => true | Boot => false end
+  && Nat.eqb (s_cnmap s) (s_map s)
+  && forallb (fun k => match alookup ckey_eqb (0, k) (t_dict (tbl s (s_map s))) with Some _ => true | None => false end) K.
+Definition call_in (K : list key) (o : op) : bool := match o with OCall k => mem k K | _ => false end.
